@@ -334,8 +334,24 @@ Definition is_virtual (c : column) : bool := match cgen c with Some (_, false) =
    ShowCreateTable.Checks() is empty, so no CHECK constraint is printed. *)
 Definition shown_checks (t : table) : list check := if existsb is_virtual (tcols t) then [] else tchecks t.
 
+(* same quirk: the wrapped table is not a sql.CommentedTable, so the table comment is not printed either *)
+Definition shown_comment (t : table) : str := if existsb is_virtual (tcols t) then [] else tcomment t.
+
+(* same quirk: the primary-key schema of the wrapped table is empty, so the key columns are printed in column order *)
+Definition shown_pk (t : table) : list str :=
+  if existsb is_virtual (tcols t)
+  then map cname (filter (fun c => existsb (str_eqb (cname c)) (tpk t)) (tcols t))
+  else tpk t.
+
+Fixpoint strs_eqb (a b : list str) : bool :=
+  match a, b with
+  | [], [] => true
+  | x :: a', y :: b' => str_eqb x y && strs_eqb a' b'
+  | _, _ => false
+  end.
+
 Definition items_of (t : table) : list item :=
-  map ICol (tcols t) ++ (match tpk t with [] => [] | pk => [IPk pk] end) ++ map IIdx (tidx t) ++ map IFk (tfks t) ++
+  map ICol (tcols t) ++ (match shown_pk t with [] => [] | pk => [IPk pk] end) ++ map IIdx (tidx t) ++ map IFk (tfks t) ++
   map ICheck (shown_checks t).
 
 (* GenerateCreateTableStatement *)
@@ -345,7 +361,7 @@ Definition print_table (t : table) : str :=
   kw_engine ++
   (match tautoinc t with None => [] | Some n => kw_tautoinc ++ n end) ++
   kw_tcharset ++ cs_name (coll_cs (tcoll t)) ++ kw_tcollate ++ coll_name (tcoll t) ++
-  (match tcomment t with [] => [] | cm => kw_tcomment ++ esc_comment cm ++ [39] end).
+  (match shown_comment t with [] => [] | cm => kw_tcomment ++ esc_comment cm ++ [39] end).
 
 (* ---------- the model parser ---------- *)
 
@@ -946,8 +962,10 @@ Definition wf_fk (f : fkey) : bool := nonempty (fcols f) && nonempty (fpcols f).
 
 Definition wf_check (k : check) : bool := wf_expr (kexpr k).
 
-(* with a VIRTUAL generated column the checks are not printed: such a schema is well-formed only without checks *)
+(* with a VIRTUAL generated column neither the checks nor the table comment are printed: such a schema is well-formed
+   only without them *)
 Definition wf_table (t : table) : bool :=
   nonempty (tcols t) && forallb (wf_col (tcoll t)) (tcols t) && forallb wf_idx (tidx t) && forallb wf_fk (tfks t) &&
   forallb wf_check (tchecks t) && (negb (existsb is_virtual (tcols t)) || negb (nonempty (tchecks t))) &&
+  (negb (existsb is_virtual (tcols t)) || negb (nonempty (tcomment t))) && strs_eqb (shown_pk t) (tpk t) &&
   (match tautoinc t with None => true | Some n => is_num n end).
